@@ -305,7 +305,7 @@ def task_regimes(pd, cse, tier, seed):
 def run(tier, seed):
     rep = Report(PID, tier, seed, "translation_validation")
     ps = programs_for(tier, seed)
-    tasks = [(task, (p, cse, tier, seed)) for p in ps for cse in (True, False)] + [(task_cse_pair, (p, tier, seed)) for p in ps] + [(task_regimes, (p, True, tier, seed)) for p in ps]
+    tasks = [(task, (p, cse, tier, seed)) for p in ps for cse in (True, False)] + [(task_cse_pair, (p, tier, seed)) for p in ps] + [(task_regimes, (p, cse_, tier, seed)) for p in ps + [CP.P27()] for cse_ in ((True,) if p.id != "P27-reciprocal-trig" else (True, False))]
     from .common import pmap_staged
 
     from .common import with_extra_validation
@@ -334,7 +334,7 @@ def replay(path):
     info = r.get("info", {})
     pid = r.get("program") or info.get("program")
     cse = r.get("cse", info.get("cse", True))
-    ps = {p.id: p for p in programs_for("thorough", int(r.get("seed", 0)))}
+    ps = {p.id: p for p in programs_for("thorough", int(r.get("seed", 0))) + CP.catalogue()}
     p = ps[pid]
     env = r["inputs"]
     if info.get("kind") == "regime":
